@@ -406,3 +406,44 @@ def parse_items_ns(s):
             a = it.split(",")
             items.append((int(a[0]), int(a[1]), int(a[2])))
     return st, items
+
+
+# ----------------------------------------------------------------------------- the --blocksz argument
+
+def blocksz_args(rng, consts, n_random):
+    """argument strings: every accepted form at the bounds and inside, quirks, malformed and out-of-range ones"""
+    lo, hi = max(consts["blocksz_min"], consts["sp_blocksz_min"]), consts["blocksz_max"]
+    vals = [0, 1, lo - 1, lo, lo + 1, 100, 4096, 65535, 65536, hi - 1, hi, hi + 1, 2 ** 32, 2 ** 64 - 1, 2 ** 64, 10 ** 20]
+    fm = {10: ("", "{:d}"), 16: ("0x", "{:x}"), 8: ("0o", "{:o}"), 2: ("0b", "{:b}")}
+    out = set()
+    for v in vals:
+        for r, (p, f) in fm.items():
+            d = f.format(v)
+            out |= {p + d, p + "+" + d, p + p + d if p else "+" + d, p + d.upper(), p + "0" + d}
+    out |= {"", "0x", "0o", "0b", "+", "-", "0X40", "0O100", "0B1000000", "64 ", " 64", "1_000", "0x4_0", "-64", "0x-40", "0x0o100",
+            "0o0x40", "0b2", "0o8", "0xg", "6 4", "64.0", "1e3", "٦٤", "0x0x0x40", "++64", "+-64", "0x++40", "0b0b0b1000000", "x40", "0"}
+    for _ in range(n_random):
+        r, (p, f) = rng.choice(list(fm.items()))
+        v = rng.choice([rng.randrange(0, 200), rng.randrange(lo, hi + 1), rng.randrange(hi, 4 * hi)])
+        s = p * rng.choice([1, 1, 1, 2]) + rng.choice(["", "", "+"]) + f.format(v)
+        if rng.random() < 0.25 and s:
+            k = rng.randrange(len(s) + 1)
+            s = s[:k] + rng.choice(["_", " ", "x", "g", "9", "-", "Z"]) + s[k:]
+        out.add(s)
+    return sorted(out)
+
+
+def blocksz_denotes(s, consts):
+    """independent python reading of what an argument denotes: value or None (malformed)"""
+    import re
+    for p, r, digs in (("0x", 16, "0-9a-fA-F"), ("0o", 8, "0-7"), ("0b", 2, "01")):
+        if s.startswith(p):
+            m = re.fullmatch(r"(?:%s)+\+?([%s]+)" % (p, digs), s, flags=re.A)
+            return int(m.group(1), r) if m else None
+    m = re.fullmatch(r"\+?([0-9]+)", s, flags=re.A)
+    return int(m.group(1)) if m else None
+
+
+def coq_blocksz(args):
+    return COQ_HDR + "Definition args : list string := [%s].\nEval vm_compute in (blocksz_check args).\n" % \
+        "; ".join('"%s"' % a.encode("utf-8").hex() for a in args)
